@@ -1,4 +1,6 @@
 SPECIFICATION Spec
-CONSTANT MaxLen = 4
+CONSTANTS
+  MaxLen = 4
+  SignFix = TRUE
 INVARIANT RoundTrip
 CHECK_DEADLOCK FALSE
